@@ -177,7 +177,7 @@ def defaultClock (pc : KVs) (eh : Option KVs) : FR (Option Y) := do
   let tsb ← clkNameOf (kvGet "timestamp_begin" pc)
   let tse ← clkNameOf (kvGet "timestamp_end" pc)
   match tsb, tse with
-  | some a, some b => if a ≠ b then throw (.other "Field types are not mapped to the same clock type") else pure ()
+  | some a, some b => if a ≠ b then Except.error (.other "Field types are not mapped to the same clock type") else pure ()
   | _, _ => pure ()
   let defClk0 ← match eh with
     | some ehf => clkNameOf (kvGet "timestamp" ehf)
